@@ -133,6 +133,19 @@ static void blk_chunks(void) {
 			sm2_verify_reset(&vc); sm2_verify_update(&vc, MSG + 3, ml - c); sm2_verify_update(&vc, MSG + 3 + ml - c, c); vh_eval(vh_hash(kk, sizeof kk, 2));
 			if (sm2_verify_finish(&vc, sig, sl) != 1) vh_viol("C01:chunks:stream-verify", "\"msglen\":%zu,\"cut\":%zu", ml, c); } }
 }
+/* block 3b: one streaming context used for many signatures (pool of 32 nonces refilled inside finish), without and with one failing entropy
+   draw anywhere in the first refill; the caller resets and carries on: whatever finish returns as a signature must verify everywhere */
+static void blk_long_stream(void) {
+	if (!vh_block_begin("long-stream")) return; int d = 3; uint8_t z[32]; sr_compute_z(z, (const uint8_t *)DEFID, 16, PUB[d]);
+	for (long fi = -1; fi < 70; fi++) { if (!vh_next()) continue; venv_reset(0xc01 + 5); if (fi >= 0) venv_fail_at(fi); SM2_SIGN_CTX sc; vh_eval(vh_mix(880000 + (uint64_t)(fi + 1)));
+		if (sm2_sign_init(&sc, &KEYS[d], DEFID, 16) != 1) { if (fi < 0) vh_viol("C01:long-stream:init-failed", "\"x\":1"); continue; } int made = 0;
+		for (int i = 0; i < 100; i++) { size_t ml = (size_t)(i % 7) * 13; uint8_t sig[80], e[32], r[32], s[32]; size_t sl = 0; sm2_sign_reset(&sc); sm2_sign_update(&sc, MSG + i, ml);
+			if (sm2_sign_finish(&sc, sig, &sl) != 1) { if (fi < 0) { vh_viol("C01:long-stream:finish-failed-without-fault", "\"index\":%d", i); break; } continue; } made++;
+			sr_digest_e(e, z, MSG + i, ml); int okr = strict_sig(sig, sl, r, s) && sr_verify(PUB[d], e, r, s); int acc = okr ? verify_all(&PUBKEYS[d], DEFID, 16, MSG + i, ml, sig, sl, e) : 0;
+			if (!okr || acc != 3) { vh_viol(fi < 0 ? "C01:long-stream:signature-does-not-verify" : "C01:long-stream:signature-after-failed-refill-does-not-verify", "\"failing_draw\":%ld,\"index\":%d,\"equations\":%d,\"library\":%d,\"sig\":\"%s\"", fi, i, okr, acc, vh_hex(sig, sl)); break; } }
+		if (made < 60) vh_viol("C01:long-stream:signer-does-not-recover", "\"failing_draw\":%ld,\"made\":%d", fi, made);
+		vh_sample("{\"block\":\"long-stream\",\"failing_draw\":%ld,\"signatures\":%d}", fi, made); }
+}
 /* block 4: the ID bound into the digest is exactly idlen bytes */
 static void blk_id(void) {
 	if (!vh_block_begin("id")) return;
@@ -258,5 +271,5 @@ static void blk_interop(void) {
 		if (sr_evp_sign(DKEY[d], PUB[d], (const uint8_t *)IDS[i].p, IDS[i].n, MSG, ml, sig, &sl) != 1) { vh_obs("OpenSSL could not sign with %s", DNAME[d]); continue; }
 		uint8_t z[32], e[32]; sr_compute_z(z, (const uint8_t *)IDS[i].p, IDS[i].n, PUB[d]); sr_digest_e(e, z, MSG, ml); int acc = verify_all(&PUBKEYS[d], IDS[i].p, IDS[i].n, MSG, ml, sig, sl, e); vh_eval(vh_mix(d * 100 + i * 10 + ml + 1)); expect_verdict("interop:openssl-signature", d, acc, 1, sig, sl, "evp"); }
 }
-static void body(void) { blk_sign(); blk_retry(); blk_chunks(); blk_id(); blk_rs(); blk_der(); blk_interop(); }
+static void body(void) { blk_sign(); blk_retry(); blk_chunks(); blk_long_stream(); blk_id(); blk_rs(); blk_der(); blk_interop(); }
 int main(int argc, char **argv) { vh_init(argc, argv); setup(); vh_guarded("C01", body, 60); return vh_finish(); }
